@@ -464,6 +464,13 @@ func (w *world) reset() error {
 
 // Provide implements core.Provider over the staging directory.
 func (w *world) Provide(path string, digest []byte) (string, error) {
+	// The provider callback is itself a point at which the environment can act
+	// (pseudo hook point "provide", named by the path being provided).
+	if w.hooking.Load() {
+		if err := w.point("provide", join("root", path)); err != nil {
+			return "", err
+		}
+	}
 	return w.stagedPath(path, digest), nil
 }
 
